@@ -195,9 +195,9 @@ func Exec(c *Case, rc *RunCfg) *Result {
 		}
 	})
 	res.Stdout = env.out.Bytes()
-	res.Stderr = env.stderr.Bytes()
+	res.Stderr = append([]byte(nil), stderrArena[:env.stderrN]...)
 	res.Writes = env.writes
-	res.Fired = env.fired
+	res.Fired = env.firedMap()
 	res.SplitLine, res.SplitCRLF = env.splitLine, env.splitCRLF
 	if len(env.files) > 0 {
 		res.Files = map[string][]byte{}
